@@ -127,6 +127,7 @@ func compareSubversion(va, vb string) int {
 	var a, b string
 	var anum, bnum bool
 	var res int
+	first := true
 	for res == 0 {
 		a, va, anum = nextFrag(va)
 		b, vb, bnum = nextFrag(vb)
@@ -135,9 +136,17 @@ func compareSubversion(va, vb string) int {
 		}
 		if anum && bnum {
 			res = cmpNumeric(a, b)
+		} else if !first && a == "" && bnum {
+			// as in dpkg a missing trailing numeric part counts as
+			// zero ("1.0a" == "1.0a0"), the empty string still sorts
+			// before everything
+			res = cmpNumeric("0", b)
+		} else if !first && b == "" && anum {
+			res = cmpNumeric(a, "0")
 		} else {
 			res = cmpString(a, b)
 		}
+		first = false
 	}
 	return res
 }
